@@ -8,6 +8,7 @@ import JanetModel.Stream.Slots
 import JanetModel.Stream.Liveness
 import JanetModel.Proc.Status
 import JanetModel.Proc.SpawnLemmas
+import JanetModel.Proc.SetupLemmas
 
 namespace JanetModel.Props.C16
 open JanetModel.Stream
@@ -353,6 +354,79 @@ theorem std_source_unmoved_loses_descriptor :
     ((osExecute true rq a stdTab).child.map (fun c => (c.objAt 1, c.objAt 2, c 3))) = some (some (.orig 1), some (.orig 1), none) ∧
     (osExecute true rq a stdTab).parent 3 = none := by
   refine ⟨?_, ?_, ?_⟩ <;> decide
+
+/-- ★★ END TO END: the child's standard descriptors are exactly the requested redirections, for EVERY request
+    (`:in/:out/:err` each inherit, `:pipe`, `:out`, any core/file or core/stream handle — including handles that are
+    themselves 0, 1 or 2 —, os/spawn and os/execute) and EVERY kernel that hands out descriptors that are not open
+    (`Fresh`: 0, 1, 2 and the handles are open; `pipe()` / `fcntl(F_DUPFD, 3)` return unused numbers, the latter ≥ 3).
+    When `os_execute_impl` (with the `src_handles` loop) reaches `posix_spawn`, the file actions it built succeed in the
+    child, and when the new program starts, descriptor 0 / 1 / 2 is what the corresponding block asked for (`effIn/Out/Err`
+    of the handles: the child's pipe end, the handle given, or its duplicate above 2), never close-on-exec; a direction
+    that was not redirected keeps what the parent has; `:err :out` makes 2 what 1 is; and above 2 the child holds nothing
+    that the parent did not already have open without close-on-exec. -/
+theorem spawn_child_stdio_exact (rq : Req) (a : Proc.Ans) (t0 : Tab) (hf : Fresh rq a t0)
+    (he : (setup true rq a t0).err = false) :
+    let p := (setup true rq a t0).p
+    let t := (setup true rq a t0).s.tab
+    (osExecute true rq a t0).plumb = some p ∧ (osExecute true rq a t0).atSpawn = t ∧ (osExecute true rq a t0).acts = fileActions p ∧
+    ∃ c, (osExecute true rq a t0).child = some c ∧
+      c 0 = (match effIn p with | some s => (t s).map clearCx | none => t.exec 0) ∧
+      c 1 = (match effOut p with | some s => (t s).map clearCx | none => t.exec 1) ∧
+      c 2 = (match effErr p with
+             | some s => (t s).map clearCx
+             | none => if p.errIsOut then (redirected t (effOut p) 1).map clearCx else t.exec 2) ∧
+      (∀ x, 2 < x → c x = t.exec x ∨ c x = none) := by
+  intro p t
+  have hs := setup_safe rq a t0 hf he
+  obtain ⟨t', hr, h0, h1, h2, hx⟩ := child_stdio_exact p t hs
+  have hpl : (osExecute true rq a t0).plumb = some p ∧ (osExecute true rq a t0).atSpawn = t ∧ (osExecute true rq a t0).acts = fileActions p := by
+    unfold osExecute
+    simp only [he, Bool.false_eq_true, if_false]
+    by_cases h1 : a.spawnOk = true
+    · by_cases h2 : rq.isSpawn = true
+      · simp only [h1, h2, Bool.not_true, Bool.false_eq_true, if_false]
+        split
+        · exact ⟨rfl, rfl, rfl⟩
+        · split
+          · exact ⟨rfl, rfl, rfl⟩
+          · split <;> exact ⟨rfl, rfl, rfl⟩
+      · simp [h1, h2]; exact ⟨rfl, rfl, rfl⟩
+    · simp [h1]; exact ⟨rfl, rfl, rfl⟩
+  refine ⟨hpl.1, hpl.2.1, hpl.2.2, t'.exec, ?_, h0, h1, h2, hx⟩
+  unfold Run.child
+  rw [hpl.2.1, hpl.2.2, hr]
+  rfl
+
+
+/-- non-vacuity of `Fresh` and of the set-up succeeding: os/spawn {:in :pipe :out :pipe :err stdout} on a process with 0, 1, 2 open -/
+def exRq : Req := ⟨true, .pipe, .pipe, .handle 1 true⟩
+def exAns : Proc.Ans := ⟨some (3, 4), some (5, 6), none, none, none, some 7, true, none, none, some 8⟩
+
+theorem exFresh : Fresh exRq exAns stdTab := by
+  refine ⟨by decide, ?_, ?_, ?_, ?_, ?_, ?_, ?_⟩
+  · intro fd h
+    simp [exRq, Redir.handleFd] at h
+    subst h; decide
+  · intro r w h
+    simp [Proc.Ans.isPipeAns, exAns] at h
+    rcases h with ⟨rfl, rfl⟩ | ⟨rfl, rfl⟩ <;> decide
+  · intro f h
+    simp [Proc.Ans.isTmpAns, exAns] at h
+    subst h; decide
+  · intro r w r' w' h h'
+    simp [exAns] at h h'
+    obtain ⟨rfl, rfl⟩ := h; obtain ⟨rfl, rfl⟩ := h'; decide
+  · intro r w r' w' h h'; simp [exAns] at h'
+  · intro r w r' w' h h'; simp [exAns] at h'
+  · intro r w f h h'
+    simp [Proc.Ans.isPipeAns, Proc.Ans.isTmpAns, exAns] at h h'
+    subst h'
+    rcases h with ⟨rfl, rfl⟩ | ⟨rfl, rfl⟩ <;> decide
+
+example : (setup true exRq exAns stdTab).err = false := by decide
+example : ((osExecute true exRq exAns stdTab).child.map (fun c => [c.objAt 0, c.objAt 1, c.objAt 2, c.objAt 3, c.objAt 4, c.objAt 5, c.objAt 6, c.objAt 7])) =
+    some [some (.pipeR 0), some (.pipeW 1), some (.orig 1), none, none, none, none, none] := by decide
+
 
 /-! life cycle of the process value -/
 
